@@ -195,7 +195,9 @@ HRecv(cin, e) ==
                       !.firstPdu = IF cls \in {"short", "big"} THEN c.firstPdu ELSE FALSE]
       envbad == Chk({<<"ENV", c.pc \in {"resp1", "resp", "est"}>>, <<"C14", c.owed = None>>,
                      <<"C17", (c.pc = "est" /\ Has(e, "to")) => WaitOK(c, e.to)>>})
-  IN IF cls \in {"short", "big"} THEN Res(Fail(c0, {0}, Hdr(f.raw)), envbad)      \* Dev_TooBigReportedAsCorruptData
+  IN IF cls # "ok" /\ f.t = "error"
+     THEN Res([Fail(c0, {0}, f.raw) EXCEPT !.owed = None], envbad)                 \* a malformed Error Report is never answered
+     ELSE IF cls \in {"short", "big"} THEN Res(Fail(c0, {0}, Hdr(f.raw)), envbad)      \* Dev_TooBigReportedAsCorruptData
      ELSE IF cls = "badver" THEN Res(Fail(c0, {8}, Hdr(f.raw)), envbad)
      ELSE IF cls = "size"
      THEN Res(Fail(c0, IF f.t \in {"unknown", "reserved5"} THEN {0, 5} ELSE {0}, f.raw), envbad)
@@ -218,8 +220,9 @@ HRecv(cin, e) ==
      ELSE IF f.t = "eod" THEN Res(HEod(c0, f, e.now), envbad)
      ELSE Res(Fail(c0, {0}, f.raw), envbad)                                         \* unexpected PDU inside a response
 
-HRFault(c, e) ==
-  LET k == e.kind
+HRFault(cin, e) ==
+  LET c == IF cin.pc = "reported" /\ cin.owed = None THEN [cin EXCEPT !.pc = cin.back] ELSE cin   \* Dev_KeepReadingAfterReport
+      k == e.kind
       t2 == e.now + e.adv
       hdrSeen == Has(e, "f") /\ Has(e, "off") /\ e.off >= 8          \* the fault hit the body: the header had been accepted
       c0 == [c EXCEPT !.now = t2, !.owed = None,
